@@ -1,227 +1,1221 @@
 """C14 -- per-bin statistics and equal-occupancy bins equal direct computation."""
 import ast
+import os
 
 import sympy as sp
 
-from vcheck import rules, symx
-from vcheck.core import PyRepo, AnalysisError, call_name, dotted_name, kwarg, norm, walk_no_nested
-from vcheck.rules import cfg_of
+from vcheck import symx
+from vcheck.core import PyRepo, AnalysisError, call_name, dotted_name, kwarg, norm
 
 MANIFEST = dict(
-    text="Formula conformance by symbolic normal forms plus structural rules (not numerical testing): the statistics loop body is "
-         "abstractly interpreted with the bin's index set as an element-wise selection and reductions as uninterpreted functionals; the "
-         "general arm must equal the documented definitions (mean, std, std/sqrt(n), median; with weights sum(w), sum(w x)/sum(w), weighted "
-         "deviation and both error estimates through the weighted-moment routine, for the binned and the second variable); the "
-         "single-member arm must equal the general arm specialised to n = 1 for every quantity the property constrains for one member "
-         "(mean, median, deviation, summed weight, weighted mean and deviation); result arrays start at the documented sentinel (-9999; "
-         "summed weight 0) and are written only under the non-empty-bin guard; bin edges/centres are min + i*binsize (+ binsize, + "
-         "binsize/2); the result-key table is conditioned on weights / second variable; equal-occupancy binning maps the engine's reverse "
-         "indices through the sort index to the original frame and takes low/high from the first/last member.",
-    note="Not decided: numerical equality, the index arithmetic of the last-bin merge beyond its three simple stores. Trusted: numpy "
-         "reductions, sympy normaliser.",
-    technique="static analysis: abstract interpretation over a symbolic term domain (reductions as uninterpreted functionals), special-case consistency by term rewriting, control-dependence rules",
+    text="Formula conformance by symbolic normal forms (not numerical testing): calc_stats, _hist_by_num and _merge_last are abstractly "
+         "interpreted as a whole (every configuration of second variable / weights / equal-occupancy) with one generic bin: the bin's "
+         "members are the reverse-index slice rev[rev[i]:rev[i+1]], reductions are uninterpreted functionals, result arrays are "
+         "(initial value, guarded element stores), and every store carries its path condition.  The value each result key holds is then "
+         "read off in four scenarios (empty bin, one member, two members, three or more): with several members it must equal the "
+         "documented definitions (mean, std, std/sqrt(n), median; with weights sum(w), sum(w x)/sum(w), weighted deviation and both "
+         "error estimates through the weighted-moment routine, for the binned and the second variable); with one member it must equal "
+         "the general definition specialised to n = 1 for every quantity the property constrains for one member; for an empty bin it "
+         "must be the documented sentinel (-9999; summed weight 0); bin edges/centres are min + i*binsize (+ binsize, + binsize/2); the "
+         "result keys exist exactly under the configurations that define them; equal-occupancy binning histograms the sorted positions "
+         "with bin size nperbin, maps the engine's reverse indices through the limited sort index to the original frame, takes low/high "
+         "from the first/last member and merges a short last bin (counts added, low of the predecessor, high of the last).",
+    note="Not decided: numerical equality, the index arithmetic of the last-bin merge on the reverse indices. Trusted: numpy "
+         "reductions, sympy normaliser, the histogram engine's reverse-index layout (offsets 0..nbin, then the members bin by bin).",
+    technique="static analysis: abstract interpretation over a symbolic term domain (reductions as uninterpreted functionals, arrays as guarded stores), "
+              "special-case consistency by term rewriting, path conditions decided per scenario",
 )
 
 ST = "esutil.stat.util."
 F = {n: sp.Function(n) for n in ("MEAN", "STD", "MEDIAN", "SUM")}
 
 
-# rules that keep their verdict however the code is laid out (decided by term equality, effect analysis or dominance over
-# resolved calls); every other rule of this check is a template rule (vcheck.core.Check.obt)
-SEMANTIC = ('R14.1', 'R14.5')
+# rules that keep their verdict however the code is laid out (decided by term equality over the values the result keys hold and by
+# path conditions decided per scenario; nothing in this check looks at statement text, local names or statement order)
+SEMANTIC = ('R14.1', 'R14.2', 'R14.3', 'R14.4', 'R14.5')
+
+
+# ---------------------------------------------------------------------------------------------------------------------------------
+# term vocabulary
+# ---------------------------------------------------------------------------------------------------------------------------------
+AT, SIZE, MEMBER, ARANGE, INT = (sp.Function(n) for n in ("AT", "SIZE", "MEMBER", "ARANGE", "INT"))
+GEN = sp.Symbol("i", integer=True)                          # the generic bin
+NSEL = sp.Symbol("NSEL", positive=True, integer=True)       # number of members of the generic bin
+POS, MEMBERS, FIRST, LAST, AREA = sp.symbols("POS MEMBERS FIRSTMEMBER LASTMEMBER INDEXAREA")
+XALL, YALL, WALL = symx.symbols("XALL", "YALL", "WALL")     # the object's arrays
+X, Y, W = symx.symbols("X", "Y", "W")                       # ... restricted to the members of the generic bin
+HIST, LOW, HIGH, REV, WSORT, SORTIDX = sp.symbols("HIST LOW HIGH REV WSORT SORT_INDEX")
+NPB = sp.Symbol("nperbin", positive=True)
+DMIN, DMAX, BINSIZE = symx.symbols("dmin", "dmax", "binsize")
+XP = "{xpref}"                                              # stands for the (unknown) prefix string self.xpref
+HPOS = sp.Symbol("h", positive=True, integer=True)
+MPOS = sp.Symbol("m", positive=True, integer=True)
+_CONT = symx.Opaque("continue")
+
+
+def _start(sym):
+    return AT(sym, GEN)
+
+
+def _end(sym):
+    return AT(sym, GEN + 1)
+
+
+def _scen(nmemb):
+    """substitution that decides path conditions for a generic bin with the given number of members (0, 1, 2, 'many')"""
+    n = {0: sp.Integer(0), 1: sp.Integer(1), 2: sp.Integer(2), "many": MPOS + 2, "some": HPOS}[nmemb]
+    return {_end(REV): _start(REV) + n, AT(HIST, GEN): n, NSEL: n}
+
+
+def _nidx(e):
+    """index arithmetic normal form: arange(n)[-1] == n - 1, int64(x) == floor(x) for the non-negative x that occur here"""
+    e = sp.sympify(e)
+    e = e.replace(lambda t: t.func == AT and t.args[0].func == ARANGE and len(t.args[0].args) == 1 and t.args[1].is_Integer,
+                  lambda t: (t.args[0].args[0] + t.args[1]) if t.args[1] < 0 else t.args[1])
+    e = e.replace(lambda t: t.func == INT and len(t.args) == 1, lambda t: sp.floor(t.args[0]))
+    return e
+
+
+def _eq(a, b):
+    if a is None or b is None:
+        return a is None and b is None
+    try:
+        a, b = _nidx(a), _nidx(b)
+        return bool(a == b or sp.expand(a - b) == 0 or sp.simplify(a - b) == 0)
+    except Exception:
+        return False
+
+
+def _decide(c, scen):
+    """truth of a path condition under a scenario; None when it stays symbolic"""
+    if c is True or c is False:
+        return c
+    try:
+        r = sp.sympify(c).subs(scen)
+        if r not in (sp.true, sp.false):
+            r = sp.simplify(r)
+    except Exception:
+        return None
+    if r == sp.true:
+        return True
+    if r == sp.false:
+        return False
+    return None
+
+
+class Undecided(Exception):
+    pass
+
+
+def _resolve(e, scen):
+    """value of a term under a scenario: conditional terms are reduced to the arm the scenario selects (only conditions are
+    specialised: the member count stays symbolic in the values)"""
+    if not isinstance(e, sp.Basic):
+        raise Undecided("not a term: %r" % (e,))
+    if isinstance(e, sp.Piecewise):
+        for v, c in e.args:
+            t = _decide(c, scen)
+            if t is None:
+                raise Undecided("condition %s" % (c,))
+            if t:
+                return _resolve(v, scen)
+        raise Undecided("no arm of %s applies" % (e,))
+    if e.args and e.has(sp.Piecewise):
+        return e.func(*[_resolve(a, scen) for a in e.args])
+    return e
+
+
+def _implies(cur, c):
+    if c == sp.true or c == cur:
+        return True
+    parts = lambda z: set(z.args) if isinstance(z, sp.And) else {z}
+    return parts(sp.sympify(c)) <= parts(sp.sympify(cur))
+
+
+# ---------------------------------------------------------------------------------------------------------------------------------
+# abstract values
+# ---------------------------------------------------------------------------------------------------------------------------------
+class Arr:
+    """an array allocated by the analysed code: initial element value and the element stores made so far, each with its path
+    condition and the kind of index (all elements / the generic bin / a mask over the bins / something else)"""
+
+    def __init__(self, init, n=None):
+        self.init = init
+        self.n = n
+        self.stores = []
+        self.tainted = False
+
+    def copy(self):
+        a = Arr(self.init, self.n)
+        a.stores = list(self.stores)
+        a.tainted = self.tainted
+        return a
+
+    def map(self, fn):
+        a = Arr(fn(self.init), self.n)
+        a.stores = [(c, k, fn(v)) for c, k, v in self.stores]
+        a.tainted = self.tainted
+        return a
+
+    def store(self, idx, v, cond, env):
+        if isinstance(idx, slice) and idx == slice(None):
+            kind = "all"
+        elif isinstance(idx, symx.Mask):
+            kind = "mask"
+            cond = sp.And(cond, idx.cond)
+        elif isinstance(idx, sp.Basic) and idx == GEN:
+            kind = "gen"
+        else:
+            kind = "other"
+        self.stores.append((cond, kind, v))
+
+    def read(self, idx, cur):
+        if isinstance(idx, sp.Basic) and idx == GEN:
+            for c, k, v in reversed(self.stores):
+                if k in ("gen", "all") and _implies(cur, c):
+                    return v
+            if not self.stores:
+                return self.init
+        return symx.Opaque("array element")
+
+    def start(self):
+        """element value before any per-bin store"""
+        v = self.init
+        for c, k, val in self.stores:
+            if k == "all":
+                if _decide(c, {}) is not True:
+                    raise Undecided("conditional fill")
+                v = val
+        return v
+
+    def value(self, scen):
+        v = self.init
+        for c, k, val in self.stores:
+            if k == "other":
+                raise Undecided("store at an index that is not the generic bin")
+            t = _decide(c, scen)
+            if t is None:
+                raise Undecided("store condition %s" % (c,))
+            if t:
+                v = val
+        return _resolve(v, scen)
+
+
+class _Buf:
+    def __init__(self, sym, n=None):
+        self.sym = sym
+        self.n = n if n is not None else SIZE(sym)      # number of elements of the original array
+        self.cells = {}       # index counted from the end of the original array -> value
+        self.other = []
+        self.tainted = False
+
+
+class Vec:
+    """an array that exists before the analysed code runs, seen from its end: element -k of the original is AT(sym, -k); a view
+    that drops trailing elements shares the buffer, a copy does not"""
+
+    def __init__(self, sym=None, buf=None, drop=0, n=None):
+        self.buf = buf if buf is not None else _Buf(sym, n)
+        self.drop = drop
+
+    @property
+    def tainted(self):
+        return self.buf.tainted
+
+    def length(self):
+        return self.buf.n - self.drop
+
+    def copy(self):
+        b = _Buf(self.buf.sym, self.buf.n)
+        b.cells = dict(self.buf.cells)
+        b.other = list(self.buf.other)
+        b.tainted = self.buf.tainted
+        return Vec(buf=b, drop=self.drop)
+
+    def _tail(self, idx):
+        """idx as a negative offset from the end of this view, or None"""
+        if isinstance(idx, (int, sp.Integer)) and not isinstance(idx, bool):
+            return int(idx) if int(idx) < 0 else None
+        if isinstance(idx, sp.Basic):
+            d = sp.simplify(idx - self.length())
+            if d.is_Integer and d < 0:
+                return int(d)
+        return None
+
+    def read(self, k):
+        r = k - self.drop
+        return self.buf.cells.get(r, AT(self.buf.sym, r))
+
+    def get(self, idx):
+        if isinstance(idx, slice):
+            if idx.step is None and (idx.start is None or idx.start == 0):
+                if idx.stop is None:
+                    return self
+                t = self._tail(idx.stop)
+                if t is not None:
+                    return Vec(buf=self.buf, drop=self.drop - t)
+            return symx.Opaque("slice of %s" % self.buf.sym)
+        t = self._tail(idx)
+        if t is not None:
+            return self.read(t)
+        return symx.Opaque("element of %s" % self.buf.sym)
+
+    def store(self, idx, v, cond, env):
+        t = None if isinstance(idx, slice) else self._tail(idx)
+        if t is not None and isinstance(v, sp.Basic):
+            r = t - self.drop
+            self.buf.cells[r] = v if cond == sp.true else sp.Piecewise((v, cond), (self.buf.cells.get(r, AT(self.buf.sym, r)), True))
+        else:
+            self.buf.other.append((idx, v, cond))
+
+
+class RevObj:
+    """the engine's reverse indices: offsets rev[0..nbin] followed by the index area holding the members bin by bin.
+    `area` is the content of the index area as a term in POS (the value the engine put there)"""
+
+    def __init__(self, sym, nbin=None):
+        self.sym = sym
+        self.nbin = nbin
+        self.area = POS
+        self.stores = []
+        self.other = []
+        self.bad_sel = []
+        self.sels = 0
+        self.tainted = False
+        self.escaped = False    # handed to a callee the analysis does not follow
+
+    def _mentions_offsets(self, *xs):
+        return any(isinstance(x, sp.Basic) and (x.has(_start(self.sym)) or x.has(_end(self.sym))) for x in xs)
+
+    def _slice_kind(self, idx):
+        lo, hi, st = idx.start, idx.stop, idx.step
+        if st is not None:
+            return None
+        if _eq(lo, _start(self.sym)) and _eq(hi, _end(self.sym)):
+            return "members"
+        if self.nbin is not None:
+            if _eq(lo, self.nbin + 1) and hi is None:
+                return "area"
+            if (lo is None or _eq(lo, 0)) and _eq(hi, self.nbin):
+                return "starts"
+            if _eq(lo, 1) and _eq(hi, self.nbin + 1):
+                return "ends"
+        return None
+
+    def get(self, idx):
+        if self.area is None:
+            return symx.Opaque("reverse indices")
+        if isinstance(idx, slice):
+            k = self._slice_kind(idx)
+            if k == "members":
+                self.sels += 1
+                return self.area.subs(POS, MEMBERS)
+            if k == "area":
+                return self.area.subs(POS, AREA)
+            if k == "starts":
+                return _start(self.sym)
+            if k == "ends":
+                return _end(self.sym)
+            if self._mentions_offsets(idx.start, idx.stop):
+                self.bad_sel.append("%s:%s" % (idx.start, idx.stop))
+            return symx.Opaque("slice of the reverse indices")
+        if isinstance(idx, sp.Basic):
+            if idx == GEN:
+                return _start(self.sym)
+            if idx == GEN + 1:
+                return _end(self.sym)
+            if idx == _start(self.sym):
+                return self.area.subs(POS, FIRST)
+            if _eq(idx, _end(self.sym) - 1):
+                return self.area.subs(POS, LAST)
+            if self._mentions_offsets(idx):
+                # some other place relative to the bin's offsets (one past the last member, the second member ...)
+                return self.area.subs(POS, sp.Function("MEMBER_AT")(idx))
+        return symx.Opaque("element of the reverse indices")
+
+    def store(self, idx, v, cond, env):
+        k = self._slice_kind(idx) if isinstance(idx, slice) else None
+        mark = {"members": MEMBERS, "area": AREA}.get(k)
+        if mark is not None and isinstance(v, sp.Basic) and v.has(mark) and not v.has(POS):
+            self.area = v.subs(mark, POS)
+            self.stores.append((cond, k))
+        elif mark is not None:
+            self.area = None
+            self.stores.append((cond, k))
+        else:
+            self.other.append((idx, v, cond))
+
+
+class SelfDict(dict):
+    """the Binner object as a dictionary; stores made by the analysed code are logged with their path condition"""
+
+    def __init__(self, *a):
+        dict.__init__(self, *a)
+        self.log = []
+        self.tainted = False
+
+    def store(self, idx, v, cond, env):
+        dict.__setitem__(self, idx, v)
+        self.log.append((idx, v, cond))
+
+
+class State:
+    def __init__(self, member_map=None, intercept=None):
+        self.member_map = member_map or {}
+        self.intercept = intercept or {}
+        self.loops = []          # (number of iterations, path condition, statement) of generic loops
+        self.gen_active = False
+        self.skipped = []
+        self.do_hist = []
+        self.merges = []
+
+
+def _taint(v, seen=None):
+    seen = seen if seen is not None else set()
+    if id(v) in seen:
+        return
+    seen.add(id(v))
+    if isinstance(v, Vec):
+        v.buf.tainted = True
+    elif isinstance(v, (Arr, RevObj)):
+        v.tainted = True
+    elif isinstance(v, dict):
+        if isinstance(v, SelfDict):
+            v.tainted = True
+        for x in v.values():
+            _taint(x, seen)
+    elif isinstance(v, (list, tuple)):
+        for x in v:
+            _taint(x, seen)
+
+
+def _terminates(block):
+    if not block:
+        return False
+    last = block[-1]
+    if isinstance(last, (ast.Return, ast.Raise, ast.Continue)):
+        return True
+    if isinstance(last, ast.If):
+        return _terminates(last.body) and _terminates(last.orelse)
+    return False
+
+
+def _is_selection(t):
+    return isinstance(t, sp.Basic) and (t == MEMBERS or (t.func == AT and len(t.args) == 2 and _is_selection(t.args[1])))
+
+
+# ---------------------------------------------------------------------------------------------------------------------------------
+# the evaluator: vcheck.symx's term interpreter extended with arrays as guarded stores, one generic loop iteration, guard clauses
+# (early return / continue) folded into path conditions, and the reverse-index object
+# ---------------------------------------------------------------------------------------------------------------------------------
+class BEnv(symx.Env):
+    def __init__(self, se, fi, mod, vars_, flags, depth=0):
+        symx.Env.__init__(self, se, fi, mod, vars_, flags, depth=depth)
+        self.cur = sp.true
+
+    @property
+    def bs(self):
+        return self.se.bs
+
+    # ---- statements -----------------------------------------------------------------------------------------------------------
+    def exec_body(self, stmts, cond):
+        rets = []
+        stmts = list(stmts)
+        for k, st in enumerate(stmts):
+            if isinstance(st, ast.If) and k + 1 < len(stmts):
+                tb, te = _terminates(st.body), _terminates(st.orelse)
+                if tb != te:
+                    # guard clause: one arm always leaves, so the rest of the block belongs to the other arm
+                    rest = stmts[k + 1:]
+                    new = ast.If(test=st.test, body=st.body + (rest if te else []), orelse=st.orelse + (rest if tb else []))
+                    ast.copy_location(new, st)
+                    rets += self.exec_stmt(new, cond) or []
+                    return rets
+            r = self.exec_stmt(st, cond)
+            if r:
+                rets += r
+                if any(c == cond or c == sp.true for c, _ in r):
+                    break
+        return rets
+
+    def exec_stmt(self, st, cond):
+        self.cur = cond
+        if isinstance(st, ast.Continue):
+            return [(cond, _CONT)]
+        try:
+            return symx.Env.exec_stmt(self, st, cond)
+        except symx.Unsupported as e:
+            self._skip(st, e)
+            return []
+
+    def _skip(self, st, e):
+        """a statement outside the term domain: what it assigns is unknown, the arrays it mentions can no longer be judged"""
+        self.bs.skipped.append((self.where(st), str(e)))
+        for x in ast.walk(st):
+            if isinstance(x, ast.Name):
+                if x.id in self.vars:
+                    _taint(self.vars[x.id])
+                if isinstance(x.ctx, ast.Store):
+                    self.vars[x.id] = symx.Opaque("not evaluated")
+
+    def exec_for(self, st, cond):
+        n = self._generic_range(st.iter)
+        if n is not None:
+            if self.bs.gen_active or not isinstance(st.target, ast.Name):
+                raise symx.Unsupported("C14: nested loops over bins at %s" % self.where(st))
+            self.bs.gen_active = True
+            self.bs.loops.append((_nidx(n), cond, st))
+            try:
+                self.vars[st.target.id] = GEN
+                rs = self.exec_body(st.body, cond)
+            finally:
+                self.bs.gen_active = False
+            return [(c, v) for c, v in rs if v is not _CONT]
+        it = self.ev(st.iter)
+        if isinstance(it, dict):
+            it = list(it.keys())
+        if isinstance(it, (list, tuple)) and len(it) <= 64:
+            rets = []
+            for v in list(it):
+                self.assign(st.target, v, st)
+                rets += [(c, x) for c, x in self.exec_body(st.body, cond) if x is not _CONT]
+            return rets
+        raise symx.Unsupported("C14: loop over `%s` at %s" % (norm(st.iter), self.where(st)))
+
+    def _generic_range(self, it):
+        if isinstance(it, ast.Call) and isinstance(it.func, ast.Name) and it.func.id == "range" and not it.keywords and 1 <= len(it.args) <= 2:
+            args = [self.ev(a) for a in it.args]
+            if len(args) == 2 and not (symx._is_expr(args[0]) and sp.sympify(args[0]) == 0):
+                return None
+            n = args[-1]
+            if symx._is_expr(n) and not sp.sympify(n).is_number:
+                return sp.sympify(n)
+        return None
+
+    # ---- stores ---------------------------------------------------------------------------------------------------------------
+    def assign(self, t, v, st):
+        if isinstance(t, ast.Subscript):
+            base = self.ev(t.value)
+            if isinstance(base, (Arr, Vec, RevObj, SelfDict)):
+                base.store(self.ev_index(t.slice), v, self.cur, self)
+                return
+        symx.Env.assign(self, t, v, st)
+
+    # ---- expressions ----------------------------------------------------------------------------------------------------------
+    def _count(self, b):
+        """number of elements of a value, where the domain knows it"""
+        if isinstance(b, Vec):
+            return b.length()
+        if isinstance(b, Arr):
+            return b.n
+        if isinstance(b, sp.Basic):
+            if b == MEMBERS or b in self.bs.member_map.values() or _is_selection(b):
+                return NSEL
+            if isinstance(b, sp.Symbol):
+                return SIZE(b)
+            if b.func == ARANGE and len(b.args) == 1:
+                return b.args[0]
+        return None
+
+    def ev(self, e, stmt_level=False):
+        if isinstance(e, ast.Attribute) and e.attr == "size":
+            n = self._count(self.ev(e.value))
+            if n is not None:
+                return n
+        return symx.Env.ev(self, e, stmt_level)
+
+    def subscript(self, base, idx, e):
+        if isinstance(base, RevObj):
+            return base.get(idx)
+        if isinstance(base, Arr):
+            return base.read(idx, self.cur)
+        if isinstance(base, Vec):
+            return base.get(idx)
+        if isinstance(base, sp.Basic) and isinstance(idx, sp.Basic):
+            mm = self.bs.member_map
+            if base in mm:
+                if idx == MEMBERS:
+                    return mm[base]
+                if idx == FIRST:
+                    return MEMBER(mm[base], 0)
+                if idx == LAST:
+                    return MEMBER(mm[base], -1)
+            if idx.is_Integer and int(idx) in (0, -1):
+                if base in mm.values():
+                    return MEMBER(base, idx)
+                if _is_selection(base):
+                    return base.subs(MEMBERS, FIRST if idx == 0 else LAST)
+        return symx.Env.subscript(self, base, idx, e)
+
+    def binop(self, op, a, b, node):
+        if isinstance(a, Arr) and symx._is_expr(b):
+            return a.map(lambda x: symx.Env.binop(self, op, x, b, node))
+        if isinstance(b, Arr) and symx._is_expr(a):
+            return b.map(lambda x: symx.Env.binop(self, op, a, x, node))
+        return symx.Env.binop(self, op, a, b, node)
+
+    def call(self, c, stmt_level=False):
+        f = c.func
+        nm = call_name(c)
+        d = dotted_name(f)
+        repo = self.se.repo
+        full = repo.resolve_name(self.mod, d) if d else ""
+        if full.startswith("numpy.") and nm in ("zeros", "ones", "empty", "full") and c.args:
+            n = self.ev(c.args[0])
+            if symx._is_expr(n) and not sp.sympify(n).is_number:
+                if nm == "full":
+                    fv = c.args[1] if len(c.args) > 1 else kwarg(c, "fill_value")
+                    init = self.ev(fv) if fv is not None else None
+                else:
+                    init = {"zeros": sp.Integer(0), "ones": sp.Integer(1), "empty": sp.Symbol("UNINITIALISED")}[nm]
+                if symx._is_expr(init):
+                    return Arr(sp.sympify(init), sp.sympify(n))
+        if isinstance(f, ast.Name) and f.id == "len" and "len" not in self.vars and len(c.args) == 1 and not c.keywords:
+            n = self._count(self.ev(c.args[0]))
+            if n is not None:
+                return n
+        if isinstance(f, ast.Attribute) and nm in ("append", "copy", "fill", "keys", "values", "items"):
+            recv = self.ev(f.value)
+            if nm == "append" and isinstance(recv, list) and len(c.args) == 1:
+                recv.append(self.ev(c.args[0]))
+                return None
+            if nm == "copy" and isinstance(recv, (Arr, Vec)):
+                return recv.copy()
+            if nm == "fill" and isinstance(recv, Arr) and len(c.args) == 1:
+                recv.store(slice(None), self.ev(c.args[0]), self.cur, self)
+                return None
+            if isinstance(recv, dict) and not c.args:
+                if nm == "keys":
+                    return list(recv.keys())
+                if nm == "values":
+                    return list(recv.values())
+                if nm == "items":
+                    return [(k, v) for k, v in recv.items()]
+        if d and d.startswith("self.") and d.count(".") == 1 and d[5:] in self.bs.intercept:
+            args = [self.ev(a) for a in c.args]
+            kws = {k.arg: self.ev(k.value) for k in c.keywords if k.arg}
+            return self.bs.intercept[d[5:]](self, c, args, kws)
+        if d and d.startswith("self.") and d.count(".") == 1 and isinstance(self.vars.get("self"), SelfDict):
+            sd = self.vars["self"]
+            cand = "%s.%s.%s" % (self.fi.module.name, self.fi.cls, d[5:]) if self.fi is not None and self.fi.cls else None
+            if cand and repo.has(cand) and cand not in self.se.opaque and self.depth < self.se.inline_depth:
+                # a method of the object (a helper extracted from the analysed method): followed, sharing the object
+                tgt = repo.func(cand)
+                static = any(isinstance(x, ast.Name) and x.id == "staticmethod" for x in tgt.node.decorator_list)
+                params = [p for p in tgt.params if not p.startswith("*")][0 if static else 1:]
+                bind = dict(zip(params, [self.ev(a) for a in c.args]))
+                for k in c.keywords:
+                    if k.arg:
+                        bind[k.arg] = self.ev(k.value)
+                for k2, v2 in self.vars.items():
+                    if k2 == "self" or k2.startswith("self."):
+                        bind[k2] = v2
+                env = BEnv(self.se, tgt, tgt.module, dict(bind), {}, depth=self.depth + 1)
+                for p in tgt.params:
+                    pn = p.lstrip("*")
+                    if pn not in env.vars and pn in tgt.defaults:
+                        env.vars[pn] = env.ev(tgt.defaults[pn])
+                base = self.cur
+                rets = env.exec_body(tgt.node.body, base)
+                env.finish_returns([(cc, v) for cc, v in rets if v is not _CONT])
+                for k2, v2 in env.vars.items():
+                    if k2.startswith("self."):
+                        self.vars[k2] = v2
+                return env.result
+            if d[5:] == "update" and len(c.args) == 1 and not c.keywords and isinstance(self.ev(c.args[0]), dict):
+                for k2, v2 in self.ev(c.args[0]).items():
+                    sd.store(k2, v2, self.cur, self)
+                return None
+            if d[5:] in ("get", "keys", "values", "items", "copy", "__contains__"):
+                pass
+            elif not (cand and repo.has(cand)):
+                sd.tainted = True        # a dictionary method that may change the object, not modelled
+        if d and repo.has(full) and full not in self.se.opaque and repo.func(full).qualname not in self.se.opaque and self.depth < self.se.inline_depth:
+            # package callee: inlined with this evaluator (a helper extracted from the analysed function is followed)
+            tgt = repo.func(full)
+            params = [p for p in tgt.params if not p.startswith("*")]
+            args = [self.ev(a) for a in c.args]
+            bind = dict(zip(params, args))
+            for k in c.keywords:
+                if k.arg:
+                    bind[k.arg] = self.ev(k.value)
+            env = BEnv(self.se, tgt, tgt.module, dict(bind), {}, depth=self.depth + 1)
+            for p in tgt.params:
+                pn = p.lstrip("*")
+                if pn not in env.vars and pn in tgt.defaults:
+                    env.vars[pn] = env.ev(tgt.defaults[pn])
+            rets = env.exec_body(tgt.node.body, sp.true)
+            env.finish_returns([(cc, v) for cc, v in rets if v is not _CONT])
+            for p, a in zip(params, c.args):
+                if isinstance(a, ast.Name) and p in env.vars and not symx._same(env.vars[p], bind.get(p)) and symx._is_expr(env.vars[p]) \
+                        and p in symx._inplace_params(tgt):
+                    self.vars[a.id] = env.vars[p]
+            return env.result
+        for a in list(c.args) + [k.value for k in c.keywords]:
+            if isinstance(a, (ast.Name, ast.Subscript)):
+                try:
+                    v = self.ev(a)
+                except symx.Unsupported:
+                    continue
+                if isinstance(v, RevObj):
+                    v.escaped = True
+        return symx.Env.call(self, c, stmt_level)
+
+
+def _new_eval(repo, member_map=None, intercept=None):
+    se = symx.SymEval(repo, opaque_tests=False)
+    se.assume = {"call:isscalar": True, "text:not np.isscalar(werr) and len(werr) < ndim": False}
+    se.bs = State(member_map, intercept)
+    return se
+
+
+class Run:
+    """outcome of one abstract execution"""
+
+    def __init__(self):
+        self.sd = None
+        self.bs = None
+        self.error = None
+
+
+def _execute(repo, fi, sd, extra_vars, member_map=None, intercept=None):
+    r = Run()
+    se = _new_eval(repo, member_map, intercept)
+    env = BEnv(se, fi, fi.module, {}, {})
+    env.vars.update({"self": sd, "self.x": XALL, "self.y": YALL, "self.weights": WALL, "self.sort_index": SORTIDX,
+                     "self.dmin": DMIN, "self.dmax": DMAX, "self.xpref": XP})
+    env.vars.update(extra_vars)
+    for p in fi.params:
+        if p not in env.vars and p in fi.defaults:
+            env.vars[p] = env.ev(fi.defaults[p])
+    r.sd, r.bs = sd, se.bs
+    try:
+        env.exec_body(fi.node.body, sp.true)
+    except (AnalysisError, RecursionError, TypeError, ValueError, KeyError, AttributeError, IndexError) as e:
+        r.error = "%s: %s" % (type(e).__name__, e)
+    return r
+
+
+def _verdict(results):
+    """all instances of one rule over the configurations: a contradiction anywhere is a contradiction; otherwise no verdict if any
+    configuration could not be evaluated"""
+    results = list(results)
+    if any(r is False for r in results):
+        return False
+    if not results or any(r is None for r in results):
+        return None
+    return True
+
+
+def _repo_as_written():
+    """the sources exactly as written.  Nothing in this check depends on the names of locals, so the renaming of locals back to the
+    reviewed baseline is not wanted here: it is a textual substitution that can capture (seen: a new loop variable `name` renamed to
+    the baseline's `i` inside the loop over the bins whose variable is `i`), which would change what the evaluator computes."""
+    old = os.environ.get("VCHECK_NO_RENAME")
+    os.environ["VCHECK_NO_RENAME"] = "1"
+    try:
+        return PyRepo()
+    finally:
+        if old is None:
+            del os.environ["VCHECK_NO_RENAME"]
+        else:
+            os.environ["VCHECK_NO_RENAME"] = old
 
 
 def run(chk):
-    repo = PyRepo()
+    repo = _repo_as_written()
     chk.set_templates(repo, semantic=SEMANTIC)
     chk.explanation = MANIFEST["text"]
-    chk.trusted = ["numpy reductions", "sympy normaliser", "CPython ast"]
+    chk.trusted = ["numpy reductions", "sympy normaliser", "CPython ast", "reverse-index layout of the histogram engine"]
     chk.floor = 45
     fi = repo.func(ST + "Binner.calc_stats")
     chk.analysed_unit(fi.qualname)
-    arms(chk, repo, fi)
-    sentinels(chk, fi)
-    edges(chk, repo, fi)
-    keys(chk, fi)
+    runs = calc_stats_runs(repo, fi)
+    arms(chk, fi, runs)
+    sentinels(chk, fi, runs)
+    edges(chk, fi, runs)
+    keys(chk, fi, runs)
     equal_occupancy(chk, repo)
 
 
-def _loop_and_arms(fi):
-    loops = [x for x in walk_no_nested(fi.node) if isinstance(x, ast.For) and norm(x.iter) == "range(nhist)"]
-    if len(loops) != 1:
-        raise AnalysisError("statistics loop over range(nhist) not found in calc_stats")
-    lp = loops[0]
-    guard = [s for s in lp.body if isinstance(s, ast.If)]
-    if len(guard) != 1:
-        raise AnalysisError("non-empty-bin guard not found")
-    g = guard[0]
-    inner = [s for s in g.body if isinstance(s, ast.If)]
-    sel = [s for s in g.body if isinstance(s, ast.Assign)]
-    if len(inner) != 1:
-        raise AnalysisError("single-member / general arms not found")
-    return lp, g, sel, inner[0]
+# ---------------------------------------------------------------------------------------------------------------------------------
+# calc_stats
+# ---------------------------------------------------------------------------------------------------------------------------------
+N = NSEL
+SUM, MEAN, STD, MED = F["SUM"], F["MEAN"], F["STD"], F["MEDIAN"]
 
 
-def _eval_arm(repo, fi, stmts, sel):
-    se = symx.SymEval(repo, opaque_tests=False)
-    se.assume = {"call:isscalar": True, "text:not np.isscalar(werr) and len(werr) < ndim": False,
-                 "text:self.y is not None": True, "text:self.weights is not None": True}
-    env = symx.Env(se, fi, fi.module, {}, {})
-    X, Y, W = symx.symbols("X", "Y", "W")
-    env.vars["self.x"], env.vars["self.y"], env.vars["self.weights"] = X, Y, W
-    env.vars["i"] = sp.Symbol("i", integer=True)
-    env.vars["w"] = symx.Mask(sp.true)
-    for nm in ("xmean", "xstd", "xerr", "xmedian", "ymean", "ystd", "yerr", "ymedian", "whist", "wxmean", "wxstd", "wxerr", "wxerr2",
-               "wymean", "wystd", "wyerr", "wyerr2"):
-        env.vars[nm] = sp.Symbol("A_" + nm)
-    env.exec_body(stmts, sp.true)
-    out = {}
-    for (arr, idx), v in env.elem.items():
-        if idx == "i":
-            out[arr] = v
-    return out, (X, Y, W)
+def _wm(v):
+    return SUM(W * v) / SUM(W)
+
+
+REF = {
+    "xmean": MEAN(X), "xstd": STD(X), "xerr": STD(X) / sp.sqrt(N), "xmedian": MED(X),
+    "ymean": MEAN(Y), "ystd": STD(Y), "yerr": STD(Y) / sp.sqrt(N), "ymedian": MED(Y),
+    "whist": SUM(W),
+    "wxmean": _wm(X), "wxstd": sp.sqrt(SUM(W * (X - _wm(X)) ** 2) / SUM(W)), "wxerr": 1 / sp.sqrt(SUM(W)),
+    "wxerr2": sp.sqrt(SUM(W ** 2 * (X - _wm(X)) ** 2)) / SUM(W),
+    "wymean": _wm(Y), "wystd": sp.sqrt(SUM(W * (Y - _wm(Y)) ** 2) / SUM(W)), "wyerr": 1 / sp.sqrt(SUM(W)),
+    "wyerr2": sp.sqrt(SUM(W ** 2 * (Y - _wm(Y)) ** 2)) / SUM(W),
+}
+# quantity -> (result key, how the key is spelt in the rule instance, needs the second variable, needs weights)
+STATKEYS = {}
+for _q in ("mean", "std", "err", "median"):
+    STATKEYS["x" + _q] = (XP + _q, "xpref + '%s'" % _q, False, False)
+    STATKEYS["y" + _q] = ("y" + _q, "'y%s'" % _q, True, False)
+STATKEYS["whist"] = ("whist", "'whist'", False, True)
+for _q in ("mean", "std", "err", "err2"):
+    STATKEYS["wx" + _q] = ("w" + XP + _q, "'w' + xpref + '%s'" % _q, False, True)
+    STATKEYS["wy" + _q] = ("wy" + _q, "'wy%s'" % _q, True, True)
+EDGEKEYS = {q: (XP + q, "xpref + '%s'" % q) for q in ("low", "high", "center")}
+CONFIGS = [(y, w) for y in (False, True) for w in (False, True)]
+
+
+def calc_stats_runs(repo, fi):
+    runs = {}
+    for hasy, hasw, npb in [(y, w, False) for y, w in CONFIGS] + [(True, True, True)]:
+        sd = SelfDict({"hist": HIST, "rev": RevObj(REV), "binsize": BINSIZE})
+        if npb:
+            sd.update({"nperbin": NPB, "low": LOW, "high": HIGH})
+        extra = {}
+        if not hasy:
+            extra["self.y"] = None
+        if not hasw:
+            extra["self.weights"] = None
+        runs[(hasy, hasw, npb)] = _execute(repo, fi, sd, extra, member_map={XALL: X, YALL: Y, WALL: W})
+    return runs
 
 
 def _specialise_n1(e):
-    """general-arm term with exactly one member: reductions collapse"""
+    """term for a bin with exactly one member: reductions collapse, the first/last member is the member"""
     e = sp.sympify(e)
+    e = e.replace(lambda t: t.func == MEMBER, lambda t: t.args[0])
     e = e.replace(lambda t: isinstance(t, (F["MEAN"], F["MEDIAN"], F["SUM"])), lambda t: t.args[0])
     e = e.replace(lambda t: isinstance(t, F["STD"]), lambda t: sp.Integer(0))
-    e = e.subs(sp.Symbol("NSEL", positive=True, integer=True), 1)
+    e = e.subs(NSEL, 1)
     return sp.simplify(e)
 
 
-def arms(chk, repo, fi):
-    lp, g, sel, inner = _loop_and_arms(fi)
-    ok = norm(g.test) == "revind[i] != revind[i + 1]" and len(sel) == 1 and norm(sel[0]) == "w = revind[revind[i]:revind[i + 1]]"
-    chk.ob("R14.1", "calc_stats::members-from-reverse-indices", ok, fi.where(g), "a non-empty bin's members are rev[rev[i]:rev[i+1]] (guard %s)" % norm(g.test))
-    chk.ob("R14.1", "calc_stats::single-member-test", norm(inner.test) == "w.size == 1", fi.where(inner), "the special arm is taken for exactly one member")
-    gen, (X, Y, W) = _eval_arm(repo, fi, inner.orelse, sel)
-    one, _ = _eval_arm(repo, fi, inner.body, sel)
-    N = sp.Symbol("NSEL", positive=True, integer=True)
-    SUM, MEAN, STD, MED = F["SUM"], F["MEAN"], F["STD"], F["MEDIAN"]
-
-    def wm(v):
-        return SUM(W * v) / SUM(W)
-    ref = {
-        "xmean": MEAN(X), "xstd": STD(X), "xerr": STD(X) / sp.sqrt(N), "xmedian": MED(X),
-        "ymean": MEAN(Y), "ystd": STD(Y), "yerr": STD(Y) / sp.sqrt(N), "ymedian": MED(Y),
-        "whist": SUM(W),
-        "wxmean": wm(X), "wxstd": sp.sqrt(SUM(W * (X - wm(X)) ** 2) / SUM(W)), "wxerr": 1 / sp.sqrt(SUM(W)),
-        "wxerr2": sp.sqrt(SUM(W ** 2 * (X - wm(X)) ** 2)) / SUM(W),
-        "wymean": wm(Y), "wystd": sp.sqrt(SUM(W * (Y - wm(Y)) ** 2) / SUM(W)), "wyerr": 1 / sp.sqrt(SUM(W)),
-        "wyerr2": sp.sqrt(SUM(W ** 2 * (Y - wm(Y)) ** 2)) / SUM(W),
-    }
-    for k, r in ref.items():
-        got = gen.get(k)
-        eq = got is not None and symx.equal(got, r)[0]
-        chk.ob("R14.1", "calc_stats[general]::%s" % k, bool(eq), fi.where(inner), "%s of a bin with several members is %s (found %s)" % (k, r, got))
-    # special-case consistency: single-member arm == general arm at n = 1, for the quantities constrained for one member
-    for k in ("xmean", "xstd", "xmedian", "ymean", "ystd", "ymedian", "whist", "wxmean", "wxstd", "wymean", "wystd"):
-        want = _specialise_n1(ref[k])
-        got = one.get(k)
-        eq = got is not None and symx.equal(sp.simplify(got), want)[0]
-        chk.ob("R14.1", "calc_stats[single]::%s" % k, bool(eq), fi.where(inner),
-               "for a single member %s must equal the general definition specialised to n=1, i.e. %s (found %s)" % (k, want, got))
+_eqcache = {}
 
 
-def sentinels(chk, fi):
-    fn = fi.node
-    env = {}
-    for a in walk_no_nested(fn):
-        if isinstance(a, ast.Assign) and isinstance(a.targets[0], ast.Name):
-            env.setdefault(a.targets[0].id, []).append(norm(a.value))
-    ok = env.get("xmean", [""])[0] == "np.zeros(nhist) - 9999.0"
-    chk.ob("R14.2", "calc_stats::sentinel-prototype", ok, fi.where(), "the prototype result array is zeros(nhist) - 9999 (%s)" % env.get("xmean"))
-    arrs = ["xstd", "xerr", "xmedian", "ymean", "ystd", "yerr", "ymedian", "wxmean", "wxstd", "wxerr", "wxerr2", "wymean", "wystd", "wyerr", "wyerr2", "whist"]
-    bad = [a for a in arrs if env.get(a, [""])[0] != "xmean.copy()"]
-    chk.ob("R14.2", "calc_stats::all-results-start-at-sentinel", not bad, fi.where(), "every result array starts as a copy of the sentinel prototype (%s)" % bad)
-    wz = [a for a in walk_no_nested(fn) if isinstance(a, ast.Assign) and norm(a) == "whist[:] = 0"]
-    chk.ob("R14.2", "calc_stats::summed-weight-starts-at-zero", len(wz) == 1, fi.where(), "the summed weight of an empty bin is 0")
-    # element stores only under the non-empty guard
-    lp, g, sel, inner = _loop_and_arms(fi)
-    stores = [a for a in ast.walk(lp) if isinstance(a, ast.Assign) and isinstance(a.targets[0], ast.Subscript) and norm(a.targets[0].slice) == "i"]
-    inside = [a for a in ast.walk(g) if isinstance(a, ast.Assign) and isinstance(a.targets[0], ast.Subscript) and norm(a.targets[0].slice) == "i"]
-    chk.ob("R14.2", "calc_stats::stores-only-for-non-empty-bins", len(stores) == len(inside) and len(stores) >= 30, fi.where(lp), "all %d element stores are under the non-empty-bin guard: empty bins keep the sentinel" % len(stores))
+def _mean_as_sum(e):
+    return e.replace(lambda t: isinstance(t, F["MEAN"]), lambda t: F["SUM"](t.args[0]) / NSEL)
 
 
-def edges(chk, repo, fi):
-    cfg = cfg_of(fi)
-    view = cfg.view()
-    se = symx.SymEval(repo, opaque_tests=False)
-    env = symx.Env(se, fi, fi.module, {}, {})
-    dmin, bs, nh = symx.symbols("dmin", "binsize", "nhist")
-    env.vars["self.dmin"] = dmin
-    env.vars["self"] = {"binsize": bs}
-    env.vars["nhist"] = nh
-    stmts = [n.ast for n in cfg.nodes if n.kind == "stmt" and isinstance(n.ast, ast.Assign) and norm(n.ast.targets[0]) in ("low", "high", "center")]
-    env.exec_body(stmts, sp.true)
-    I = sp.Function("ARANGE")(nh)
-    ref = {"low": dmin + I * bs, "high": dmin + I * bs + bs, "center": dmin + I * bs + bs / 2}
-    for k, r in ref.items():
-        got = env.vars.get(k)
-        eq = got is not None and symx._is_expr(got) and symx.equal(got, r)[0]
-        chk.ob("R14.3", "calc_stats::%s" % k, bool(eq), fi.where(), "bin %s is %s (found %s)" % (k, r, got))
-    for n in cfg.nodes:
-        if n.kind == "stmt" and isinstance(n.ast, ast.Assign) and norm(n.ast.targets[0]) == "low" and "arange" in norm(n.ast.value):
-            ts = dict(rules.controlling_tests(view, n, skip_reject_guards=True))
-            chk.ob("R14.3", "calc_stats::edges-only-for-regular-bins", ts.get("'nperbin' in self") == "F", fi.where(n.ast), "regular edges are computed only for binsize/nbin histograms (equal-occupancy bins get theirs from the members)")
+def _same_term(got, want):
+    k = (sp.srepr(got), sp.srepr(want))
+    if k not in _eqcache:
+        ok = bool(symx.equal(got, want)[0])
+        if not ok and isinstance(got, sp.Basic) and (got.has(F["MEAN"]) or got.has(F["SUM"])) and want.has(F["MEAN"]):
+            # numpy's mean of the members is their sum divided by their number
+            ok = bool(symx.equal(_mean_as_sum(got), _mean_as_sum(want))[0])
+        _eqcache[k] = ok
+    return _eqcache[k]
 
 
-def keys(chk, fi):
-    cfg = cfg_of(fi)
-    view = cfg.view()
-    table = {}
-    for n in cfg.nodes:
-        a = n.ast
-        if n.kind == "stmt" and isinstance(a, ast.Assign) and isinstance(a.targets[0], ast.Subscript) and norm(a.targets[0].value) == "self" and isinstance(a.value, ast.Name):
-            ts = dict(rules.controlling_tests(view, n, skip_reject_guards=True))
-            table[norm(a.targets[0].slice)] = (a.value.id, ts.get("self.y is not None"), ts.get("self.weights is not None"))
-    want = {
-        "xpref + 'mean'": ("xmean", None, None), "xpref + 'std'": ("xstd", None, None), "xpref + 'err'": ("xerr", None, None), "xpref + 'median'": ("xmedian", None, None),
-        "'ymean'": ("ymean", "T", None), "'ystd'": ("ystd", "T", None), "'yerr'": ("yerr", "T", None), "'ymedian'": ("ymedian", "T", None),
-        "'whist'": ("whist", None, "T"), "'w' + xpref + 'mean'": ("wxmean", None, "T"), "'w' + xpref + 'std'": ("wxstd", None, "T"),
-        "'w' + xpref + 'err'": ("wxerr", None, "T"), "'w' + xpref + 'err2'": ("wxerr2", None, "T"),
-        "'wymean'": ("wymean", "T", "T"), "'wystd'": ("wystd", "T", "T"), "'wyerr'": ("wyerr", "T", "T"), "'wyerr2'": ("wyerr2", "T", "T"),
-        "xpref + 'low'": ("low", None, None), "xpref + 'high'": ("high", None, None), "xpref + 'center'": ("center", None, None),
-    }
-    for k, w in want.items():
-        chk.ob("R14.4", "calc_stats::key::%s" % k, table.get(k) == w, fi.where(), "result key %s holds %s under (second variable: %s, weights: %s) -- found %s" % (k, w[0], w[1], w[2], table.get(k)))
+def _stat_array(run, key):
+    """(Arr stored under the result key, reason why there is none)"""
+    if run.error:
+        return None, "the function could not be evaluated (%s)" % run.error[:160]
+    if run.sd.tainted:
+        return None, "statements outside the term domain touch the object: %s" % (run.bs.skipped[:2],)
+    v = run.sd.get(key) if any(k == key for k, _, _ in run.sd.log) else None
+    if v is None:
+        return None, "no store to the key was found"
+    if not isinstance(v, Arr):
+        return None, "the stored value is not an array the analysis followed (%r)" % (v,)
+    if v.tainted:
+        return None, "statements outside the term domain touch the array: %s" % (run.bs.skipped[:2],)
+    return v, ""
+
+
+def _stat_runs(runs, q):
+    _, _, needy, needw = STATKEYS[q]
+    return [(cfg, runs[cfg]) for cfg in runs if not cfg[2] and (cfg[0] or not needy) and (cfg[1] or not needw)]
+
+
+def _loops_ok(run):
+    """True: there is exactly one loop over all bins of the histogram; None: not recognised"""
+    if run.error or not run.bs.loops:
+        return None
+    return True if all(_eq(n, SIZE(HIST)) for n, _, _ in run.bs.loops) else False
+
+
+def arms(chk, fi, runs):
+    std = [r for cfg, r in runs.items() if not cfg[2]]
+    full = runs[(True, True, False)]
+    where = fi.where(full.bs.loops[0][2]) if full.bs.loops else fi.where()
+    # the members of a bin
+    res = []
+    for r in std:
+        rv = r.sd.get("rev")
+        if isinstance(rv, RevObj) and (rv.bad_sel or rv.other or rv.stores):
+            res.append(False)
+        elif r.error or not isinstance(rv, RevObj) or rv.tainted or rv.escaped:
+            res.append(None)
+        elif rv.sels == 0 or _loops_ok(r) is None:
+            res.append(None)
+        else:
+            res.append(_loops_ok(r))
+    bad = [x for r in std if isinstance(r.sd.get("rev"), RevObj) for x in r.sd["rev"].bad_sel]
+    chk.ob("R14.1", "calc_stats::members-from-reverse-indices", _verdict(res), where,
+           "the statistics loop visits every bin and a non-empty bin's members are rev[rev[i]:rev[i+1]]; the reverse indices are not modified%s%s"
+           % ((" (found slice %s)" % bad[0]) if bad else "", (" [%s]" % full.error[:200]) if full.error else ""))
+    # values per scenario
+    general, single, undecided = {}, {}, []
+    for q, ref in REF.items():
+        key = STATKEYS[q][0]
+        g, s = [], []
+        gmsg = smsg = ""
+        for cfg, r in _stat_runs(runs, q):
+            arr, why = _stat_array(r, key)
+            if arr is None:
+                g.append(None)
+                s.append(None)
+                gmsg = gmsg or why
+                smsg = smsg or why
+                continue
+            for sc in (2, "many"):
+                try:
+                    got = arr.value(_scen(sc))
+                    ok = _same_term(got, ref)
+                    g.append(ok)
+                    if not ok:
+                        gmsg = "found %s" % (got,)
+                except Undecided as e:
+                    g.append(None)
+                    undecided.append("%s: %s" % (q, e))
+                    gmsg = gmsg or "not decided: %s" % e
+            try:
+                got = arr.value(_scen(1))
+                want = _specialise_n1(ref)
+                ok = _same_term(_specialise_n1(got), want)
+                s.append(ok)
+                if not ok:
+                    smsg = "found %s" % (got,)
+            except Undecided as e:
+                s.append(None)
+                undecided.append("%s: %s" % (q, e))
+                smsg = smsg or "not decided: %s" % e
+        general[q] = (_verdict(g), gmsg)
+        single[q] = (_verdict(s), smsg)
+    anyarr = any(_stat_array(r, STATKEYS["xmean"][0])[0] is not None for r in std)
+    chk.ob("R14.1", "calc_stats::single-member-test", (True if not undecided else None) if anyarr else None, where,
+           "which formula a bin gets is decided by its number of members alone (one / several)%s" % ((": " + "; ".join(undecided[:3])) if undecided else ""))
+    for q, ref in REF.items():
+        ok, msg = general[q]
+        chk.ob("R14.1", "calc_stats[general]::%s" % q, ok, where, "%s of a bin with several members is %s (%s)" % (q, ref, msg or "as found"))
+    # special-case consistency: one member == general definition at n = 1, for the quantities constrained for one member
+    for q in ("xmean", "xstd", "xmedian", "ymean", "ystd", "ymedian", "whist", "wxmean", "wxstd", "wymean", "wystd"):
+        ok, msg = single[q]
+        chk.ob("R14.1", "calc_stats[single]::%s" % q, ok, where,
+               "for a single member %s must equal the general definition specialised to n=1, i.e. %s (%s)" % (q, _specialise_n1(REF[q]), msg or "as found"))
+
+
+def sentinels(chk, fi, runs):
+    where = fi.where()
+
+    def starts(qs, want):
+        res, msg = [], ""
+        for q in qs:
+            for cfg, r in _stat_runs(runs, q):
+                arr, why = _stat_array(r, STATKEYS[q][0])
+                if arr is None:
+                    res.append(None)
+                    msg = msg or "%s: %s" % (q, why)
+                    continue
+                try:
+                    v = arr.start()
+                    ok = symx._is_expr(v) and _same_term(sp.sympify(v), want)
+                    res.append(bool(ok))
+                    if not ok:
+                        msg = "%s starts at %s" % (q, v)
+                except Undecided as e:
+                    res.append(None)
+                    msg = msg or "%s: %s" % (q, e)
+        return _verdict(res), msg
+
+    ok, msg = starts(["xmean"], sp.Integer(-9999))
+    chk.ob("R14.2", "calc_stats::sentinel-prototype", ok, where, "the mean of the binned variable starts at -9999 in every bin (%s)" % (msg or "as found"))
+    ok, msg = starts([q for q in REF if q not in ("xmean", "whist")], sp.Integer(-9999))
+    chk.ob("R14.2", "calc_stats::all-results-start-at-sentinel", ok, where, "every other statistic starts at the sentinel -9999 (%s)" % (msg or "as found"))
+    ok, msg = starts(["whist"], sp.Integer(0))
+    chk.ob("R14.2", "calc_stats::summed-weight-starts-at-zero", ok, where, "the summed weight of an empty bin is 0 (%s)" % (msg or "as found"))
+    # element stores only for non-empty bins
+    res, msg, nst = [], "", 0
+    for q in REF:
+        for cfg, r in _stat_runs(runs, q):
+            arr, why = _stat_array(r, STATKEYS[q][0])
+            if arr is None:
+                res.append(None)
+                msg = msg or "%s: %s" % (q, why)
+                continue
+            per_bin = [(c, k) for c, k, _ in arr.stores if k != "all"]
+            nst += len(per_bin)
+            if not per_bin:
+                res.append(None)
+                msg = msg or "%s: no per-bin store found" % q
+            for c, k in per_bin:
+                t = None if k == "other" else _decide(c, _scen(0))
+                res.append(None if t is None else (not t))
+                if t is not False:
+                    msg = "%s is stored under %s" % (q, c)
+    chk.ob("R14.2", "calc_stats::stores-only-for-non-empty-bins", _verdict(res), where,
+           "all %d per-bin stores happen only for a non-empty bin: empty bins keep the sentinel (%s)" % (nst, msg or "as found"))
+
+
+def _logged(run, key):
+    return [v for k, v, _ in run.sd.log if k == key]
+
+
+def edges(chk, fi, runs):
+    where = fi.where()
+    idx = ARANGE(SIZE(HIST))
+    ref = {"low": DMIN + idx * BINSIZE, "high": DMIN + idx * BINSIZE + BINSIZE, "center": DMIN + idx * BINSIZE + BINSIZE / 2}
+    for q, r_ in ref.items():
+        res, got = [], None
+        for cfg, r in runs.items():
+            if cfg[2]:
+                continue
+            if r.error or r.sd.tainted:
+                res.append(None)
+                continue
+            vals = _logged(r, EDGEKEYS[q][0])
+            if not vals:
+                res.append(None)
+                continue
+            got = vals[-1]
+            res.append(bool(symx._is_expr(got) and _same_term(sp.sympify(got), r_)) if not isinstance(got, symx.Opaque) else None)
+        chk.ob("R14.3", "calc_stats::%s" % q, _verdict(res), where, "bin %s is %s (found %s)" % (q, r_, got))
+    r = runs[(True, True, True)]
+    if r.error or r.sd.tainted:
+        ok = None
+    else:
+        ok = not any(_logged(r, EDGEKEYS[q][0]) or (q != "center" and _logged(r, q)) for q in ref)
+    chk.ob("R14.3", "calc_stats::edges-only-for-regular-bins", ok, where,
+           "regular edges are computed only for binsize/nbin histograms (equal-occupancy bins get theirs from the members)")
+
+
+def keys(chk, fi, runs):
+    where = fi.where()
+
+    def present(needy, needw, key, npb_matters):
+        res, msg = [], ""
+        for cfg, r in runs.items():
+            if cfg[2] and not npb_matters:
+                continue
+            if r.error or r.sd.tainted:
+                res.append(None)
+                msg = msg or (r.error or "object touched by statements outside the term domain")[:160]
+                continue
+            want = (cfg[0] or not needy) and (cfg[1] or not needw) and not (npb_matters and cfg[2])
+            have = bool(_logged(r, key))
+            res.append(want == have)
+            if want != have:
+                msg = "%s with second variable: %s, weights: %s, equal-occupancy: %s" % ("missing" if want else "present", cfg[0], cfg[1], cfg[2])
+        return _verdict(res), msg
+
+    for q, (key, spelt, needy, needw) in STATKEYS.items():
+        ok, msg = present(needy, needw, key, False)
+        chk.ob("R14.4", "calc_stats::key::%s" % spelt, ok, where,
+               "result key %s holds %s exactly when (second variable: %s, weights: %s) (%s)" % (spelt, q, "T" if needy else None, "T" if needw else None, msg or "as found"))
+    for q, (key, spelt) in EDGEKEYS.items():
+        ok, msg = present(False, False, key, True)
+        chk.ob("R14.4", "calc_stats::key::%s" % spelt, ok, where, "result key %s holds %s for binsize/nbin histograms (%s)" % (spelt, q, msg or "as found"))
+
+
+# ---------------------------------------------------------------------------------------------------------------------------------
+# equal-occupancy binning
+# ---------------------------------------------------------------------------------------------------------------------------------
+def _hist_by_num_run(repo, fi, mergelast):
+    dh = repo.func(ST + "Binner._do_hist")
+    dparams = [p for p in dh.params if not p.startswith("*")][1:]
+
+    def do_hist(env, c, args, kws):
+        bind = {p: env.ev(dh.defaults[p]) for p in dparams if p in dh.defaults}
+        bind.update(zip(dparams, args))
+        bind.update(kws)
+        nb = bind.get("nbin")
+        rv = RevObj(REV, _nidx(nb) if symx._is_expr(nb) else None)
+        env.bs.do_hist.append((bind, env.cur, rv))
+        return (HIST, rv)
+
+    def merge_last(env, c, args, kws):
+        env.bs.merges.append((env.cur, dict(env.vars["self"])))
+        return None
+
+    sd = SelfDict({"wsort": WSORT})
+    return _execute(repo, fi, sd, {"nperbin": NPB, "mergelast": mergelast}, intercept={"_do_hist": do_hist, "_merge_last": merge_last})
 
 
 def equal_occupancy(chk, repo):
     fi = repo.func(ST + "Binner._hist_by_num")
     chk.analysed_unit(fi.qualname)
-    fn = fi.node
-    env = {}
-    for a in walk_no_nested(fn):
-        if isinstance(a, ast.Assign):
-            env.setdefault(norm(a.targets[0]), []).append(norm(a.value))
-    ok = env.get("ind") == ["np.arange(self['wsort'].size)"] and env.get("bsize") == ["float(nperbin)"] and env.get("nbin") == ["np.int64((indmax - indmin) / bsize) + 1"] \
-        and env.get("indmax") == ["ind[-1]"] and env.get("indmin") == ["0"]
-    chk.ob("R14.5", "_hist_by_num::positions-binned-by-count", ok, fi.where(), "sorted positions 0..n-1 are histogrammed with bin size nperbin: every bin gets nperbin consecutive sorted data")
-    loops = [x for x in walk_no_nested(fn) if isinstance(x, ast.For)]
-    ok = False
-    if len(loops) == 1:
-        lp = loops[0]
-        g = [s for s in lp.body if isinstance(s, ast.If)]
-        if len(g) == 1 and norm(g[0].test) == "rev[i] != rev[i + 1]":
-            body = [norm(s) for s in g[0].body]
-            ok = body == ["w = rev[rev[i]:rev[i + 1]]", "w = self['wsort'][w]", "rev[rev[i]:rev[i + 1]] = w", "self['low'][i] = self.x[w[0]]", "self['high'][i] = self.x[w[-1]]"]
-    chk.ob("R14.5", "_hist_by_num::reverse-indices-in-original-frame", ok, fi.where(),
-           "each bin's sorted positions are mapped through the (limited) sort index to indices of the original array and written back; low/high are the first/last member's values")
-    cfg = cfg_of(fi)
-    view = cfg.view()
-    mc = [(n, c) for n in cfg.nodes for c in rules.stmts_calls(n) if call_name(c) == "_merge_last"]
-    ok = len(mc) == 1 and rules.controlling_tests(view, mc[0][0])[:1] == [("hist[-1] != nperbin and mergelast", "T")]
-    chk.ob("R14.5", "_hist_by_num::merge-condition", ok, fi.where(), "the last bin is merged exactly when it is short and mergelast is on")
+    where = fi.where()
+    ron = _hist_by_num_run(repo, fi, True)
+    roff = _hist_by_num_run(repo, fi, False)
+    both = (ron, roff)
+    n = SIZE(WSORT)
+
+    # the engine call
+    res, msg = [], ""
+    for r in both:
+        if r.error or len(r.bs.do_hist) != 1:
+            res.append(None)
+            msg = msg or (r.error or "%d calls of the histogram engine found" % len(r.bs.do_hist))[:200]
+            continue
+        bind, cond, rv = r.bs.do_hist[0]
+        want = {"data": ARANGE(n), "dmin": sp.Integer(0), "sortind": ARANGE(n), "bsize": NPB}
+        for p, w in want.items():
+            g = bind.get(p)
+            if isinstance(g, symx.Opaque) or g is None or not symx._is_expr(g):
+                res.append(None)
+                msg = msg or "%s not followed (%r)" % (p, g)
+            else:
+                res.append(_eq(g, w))
+                if not _eq(g, w):
+                    msg = "%s is %s, expected %s" % (p, g, w)
+        g = bind.get("nbin")
+        if not symx._is_expr(g):
+            res.append(None)
+            msg = msg or "nbin not followed (%r)" % (g,)
+        else:
+            okn = _eq(g, sp.floor((n - 1) / NPB) + 1) or _eq(g, sp.ceiling(n / NPB))
+            res.append(okn)
+            if not okn:
+                msg = "nbin is %s" % (g,)
+        res.append(bind.get("rev") is True if isinstance(bind.get("rev"), bool) else None)
+        res.append(_decide(cond, {}))
+    chk.ob("R14.5", "_hist_by_num::positions-binned-by-count", _verdict(res), where,
+           "sorted positions 0..n-1 are histogrammed with bin size nperbin into int((n-1)/nperbin)+1 bins, with reverse indices: every bin gets "
+           "nperbin consecutive sorted data (%s)" % (msg or "as found"))
+
+    # reverse indices mapped to the original frame; low / high
+    res, msg = [], ""
+    nonempty = _scen("some")
+    for r in both:
+        if r.error or len(r.bs.do_hist) != 1 or r.sd.tainted:
+            res.append(None)
+            msg = msg or (r.error or "engine call / object not followed: %s" % (r.bs.skipped[:2],))[:200]
+            continue
+        rv = r.bs.do_hist[0][2]
+        if rv.tainted or rv.area is None or rv.other or (rv.escaped and not rv.stores):
+            res.append(None)
+            msg = msg or "the stores into the reverse indices were not recognised"
+        else:
+            ok = _eq(rv.area, AT(WSORT, POS))
+            res.append(ok)
+            if not ok:
+                msg = "the index area holds %s for the engine's position POS" % (rv.area,)
+            for c, k in rv.stores:
+                if k == "members":
+                    lp = _verdict([_eq(nl, rv.nbin) for nl, _, _ in r.bs.loops]) if rv.nbin is not None else None
+                    res.append(lp if lp else None)
+                    t = _decide(c, nonempty)
+                else:
+                    t = _decide(c, {})
+                res.append(t)
+                if t is not True:
+                    msg = msg or "the members are converted only under %s" % (c,)
+        for q, sel in (("low", FIRST), ("high", LAST)):
+            a = r.sd.get(q)
+            if not isinstance(a, Arr) or a.tainted:
+                res.append(None)
+                msg = msg or "%s is not an array the analysis followed" % q
+                continue
+            try:
+                got = a.value(nonempty)
+                want = AT(XALL, AT(WSORT, sel))
+                ok = _eq(got, want)
+                res.append(ok)
+                if not ok:
+                    msg = "%s of a non-empty bin is %s, expected %s" % (q, got, want)
+            except Undecided as e:
+                res.append(None)
+                msg = msg or "%s: %s" % (q, e)
+    chk.ob("R14.5", "_hist_by_num::reverse-indices-in-original-frame", _verdict(res), where,
+           "each bin's sorted positions are mapped through the (limited) sort index to indices of the original array and written back; low/high are "
+           "the first/last member's values (%s)" % (msg or "as found"))
+
+    # merge condition
+    res, msg = [], ""
+    last = AT(HIST, -1)
+    short, fullbin = {last: NPB - HPOS}, {last: NPB}
+    if ron.error or roff.error:
+        res.append(None)
+        msg = (ron.error or roff.error)[:200]
+    else:
+        if len(ron.bs.merges) != 1:
+            res.append(None)
+            msg = "%d calls of the merge found with mergelast on" % len(ron.bs.merges)
+        else:
+            c = ron.bs.merges[0][0]
+            t1, t2 = _decide(c, short), _decide(c, fullbin)
+            res += [t1, None if t2 is None else (not t2)]
+            if t1 is not True or t2 is not False:
+                msg = "with mergelast on the merge happens under %s" % (c,)
+        for c, _ in roff.bs.merges:
+            t1, t2 = _decide(c, short), _decide(c, fullbin)
+            res += [None if t1 is None else (not t1), None if t2 is None else (not t2)]
+            if t1 is not False or t2 is not False:
+                msg = "with mergelast off the merge happens under %s" % (c,)
+    chk.ob("R14.5", "_hist_by_num::merge-condition", _verdict(res), where, "the last bin is merged exactly when it is short and mergelast is on (%s)" % (msg or "as found"))
+
+    # _merge_last
     ml = repo.func(ST + "Binner._merge_last")
     chk.analysed_unit(ml.qualname)
-    st = [norm(a) for a in walk_no_nested(ml.node) if isinstance(a, ast.Assign)]
-    need = ["hist[-1] = self['hist'][-2] + self['hist'][-1]", "low[-1] = self['low'][-2]", "high[-1] = self['high'][-1]"]
-    chk.ob("R14.5", "_merge_last::merged-bin-count-and-limits", all(n in st for n in need), ml.where(), "merged bin: counts added, low from the predecessor, high from the last bin")
-    cfgm = cfg_of(ml)
-    okg = any(rules.controlling_tests(cfgm.view(), n)[:1] == [("nbin < 2", "T")] for n in rules.return_nodes(cfgm))
-    chk.ob("R14.5", "_merge_last::needs-two-bins", okg, ml.where(), "nothing is merged when there is only one bin")
-    st2 = {norm(a.targets[0]): norm(a.value) for a in walk_no_nested(fn) if isinstance(a, ast.Assign) and norm(a.targets[0]).startswith("self[")}
-    chk.ob("R14.5", "_hist_by_num::results-stored", st2.get("self['hist']") == "hist" and st2.get("self['rev']") == "rev" and st2.get("self['nperbin']") == "nperbin", fi.where(), "hist / rev / nperbin are stored")
+    sd = SelfDict({"hist": Vec(HIST), "low": Vec(LOW, n=SIZE(HIST)), "high": Vec(HIGH, n=SIZE(HIST)), "rev": Vec(REV)})     # one low / high per bin
+    rm = _execute(repo, ml, sd, {})
+    res, msg = [], ""
+    want = {"hist": (HIST, AT(HIST, -2) + AT(HIST, -1)), "low": (LOW, AT(LOW, -2)), "high": (HIGH, AT(HIGH, -1))}
+    for q, (sym, w) in want.items():
+        v = rm.sd.get(q)
+        if rm.error or rm.sd.tainted or not isinstance(v, Vec) or v.tainted or v.buf.sym != sym or not _logged(rm, q):
+            res.append(None)
+            msg = msg or (rm.error or "the new %s is not an array the analysis followed (%r) %s" % (q, v, rm.bs.skipped[:2]))[:200]
+            continue
+        if v.buf.other:
+            res.append(None)
+            msg = msg or "%s: store at an index the analysis does not follow (%s)" % (q, v.buf.other[0][0])
+            continue
+        try:
+            # the values the function leaves when it does merge (two or more bins)
+            cells = {k: _resolve(val, {SIZE(HIST): MPOS + 1}) for k, val in v.buf.cells.items()}
+            lastv = _resolve(v.read(-1), {SIZE(HIST): MPOS + 1})
+        except Undecided as e:
+            res.append(None)
+            msg = msg or "%s: %s" % (q, e)
+            continue
+        ok = v.drop == 1 and _eq(lastv, w) and all(_eq(val, AT(sym, k)) for k, val in cells.items() if k != -1 - v.drop)
+        res.append(bool(ok))
+        if not ok:
+            msg = "new %s drops %d element(s) and ends with %s, expected one and %s" % (q, v.drop, lastv, w)
+    chk.ob("R14.5", "_merge_last::merged-bin-count-and-limits", _verdict(res), ml.where(),
+           "merged bin: one bin fewer, counts added, low from the predecessor, high from the last bin (%s)" % (msg or "as found"))
+    res, msg = [], ""
+    if rm.error or rm.sd.tainted or not rm.sd.log:
+        res.append(None)
+        msg = (rm.error or "no store followed")[:200]
+    for k, v, c in rm.sd.log:
+        t1, t2, t3 = _decide(c, {SIZE(HIST): 1}), _decide(c, {SIZE(HIST): 2}), _decide(c, {SIZE(HIST): MPOS + 2})
+        res += [None if t1 is None else (not t1), t2, t3]
+        if not (t1 is False and t2 and t3):
+            msg = "%s is stored under %s" % (k, c)
+    chk.ob("R14.5", "_merge_last::needs-two-bins", _verdict(res), ml.where(), "nothing is merged when there is only one bin, and two are enough (%s)" % (msg or "as found"))
+
+    # results stored (before the merge reads them)
+    res, msg = [], ""
+    for r in both:
+        if r.error or r.sd.tainted or len(r.bs.do_hist) != 1:
+            res.append(None)
+            msg = msg or (r.error or "engine call / object not followed")[:200]
+            continue
+        rv = r.bs.do_hist[0][2]
+        for state in [r.sd] + [m[1] for m in r.bs.merges]:
+            h, v, npb = state.get("hist"), state.get("rev"), state.get("nperbin")
+            ok = isinstance(h, sp.Basic) and h == HIST and v is rv and isinstance(npb, sp.Basic) and npb == NPB
+            res.append(bool(ok))
+            if not ok:
+                msg = "hist=%r rev=%r nperbin=%r" % (h, v, npb)
+    chk.ob("R14.5", "_hist_by_num::results-stored", _verdict(res), where, "hist / rev / nperbin are stored, before a merge reads them (%s)" % (msg or "as found"))
